@@ -155,9 +155,14 @@ def run_shard(ctx, p):
         tmp = os.path.join(tmp_root, 'd%d' % d)
         din = os.path.join(tmp, 'in')
         os.makedirs(din)
-        for f in case['files']:
+        for fi_, f in enumerate(case['files']):
             os.makedirs(os.path.dirname(os.path.join(din, f['name'])), exist_ok=True)
-            with open(os.path.join(din, f['name']), 'wb') as fh:
+            target = os.path.join(din, f['name'])
+            if f.get('as_link'):
+                os.makedirs(os.path.join(tmp, 'archive'), exist_ok=True)
+                target = os.path.join(tmp, 'archive', 'a%03d' % fi_)
+                os.symlink(target, os.path.join(din, f['name']))
+            with open(target, 'wb') as fh:
                 fh.write(f['data'])
         names = sorted(f['name'] for f in case['files'])
         kinds = {f['name']: f['kind'] for f in case['files']}
